@@ -611,6 +611,11 @@ def b_print(eng, args, kwargs, node, fr):
 def b_range(eng, args, kwargs, node, fr):
     vals = [intval(eng.force(a)) for a in args]
     if any(v is None for v in vals):
+        a0 = eng.force(args[0])
+        if len(args) == 1 and isinstance(a0, VInt):
+            # range(n) for a symbolic n: an abstract sequence of length max(n, 0) whose i-th element is i
+            n = z3.If(a0.t > 0, a0.t, 0)
+            return eng.new_list(ListModel(None, n, lambda i: VInt(i), [], "range"))
         raise OutOfSubset("symbolic range", node)
     return VTuple([VInt(i) for i in range(*vals)])
 
